@@ -1,9 +1,64 @@
 import UvModel.DriverUtil
-/-! line-protocol driver modes for C16 (stub: no modes yet) -/
+import UvModel.Fault
+/-! line-protocol driver modes for C16 (model side of the per-operation fault correspondence)
+
+mode `c16ops`, one request per line:
+  `points <op> <params…>`                      → `points <label>…`        labels of the fault points in execution order
+  `run <op> <params…> fault none|<k> <errno>`  → `rc=<int> reqs=<d> mem=<d> fds=<d> handles=<d> watches=<d>`
+                                                 (deltas of the accounting state caused by the call)
+  `retry <n>`                                  → `attempts=<n+1> eintr-surfaced=false`   (retry loop after n interruptions)
+ops: write2 <nbufs> | udp_send <nbufs> <wasActive 0|1> | fs <async 0|1> <none|path|bufs> | queue_work | getaddrinfo |
+     pipe_bind | spawn <npipes> <heap 0|1> | fs_poll_start | fs_event_start <newWd 0|1> | environ <n>
+-/
 namespace Drivers.C16
-open UvModel.DriverUtil
+open UvModel.DriverUtil UvModel.Fault
+
+def parseOp : List String → Option (Op × List String)
+  | "write2" :: n :: rest => some (uvWrite2 (nat! n), rest)
+  | "udp_send" :: n :: a :: rest => some (udpSend (nat! n) (a == "1"), rest)
+  | "fs" :: a :: k :: rest =>
+    match k with
+    | "none" => some (fsOp (a == "1") .none, rest)
+    | "path" => some (fsOp (a == "1") .path, rest)
+    | "bufs" => some (fsOp (a == "1") .bufs, rest)
+    | _ => none
+  | "queue_work" :: rest => some (queueWork, rest)
+  | "getaddrinfo" :: rest => some (getaddrinfoAsync, rest)
+  | "pipe_bind" :: rest => some (pipeBind, rest)
+  | "spawn" :: n :: h :: rest => some (uvSpawn (nat! n) (h == "1"), rest)
+  | "fs_poll_start" :: rest => some (fsPollStart, rest)
+  | "fs_event_start" :: w :: rest => some (fsEventStart (w == "1"), rest)
+  | "environ" :: n :: rest => some (osEnviron (nat! n), rest)
+  | _ => none
+
+def showRun (r : D × Int) : String :=
+  s!"rc={r.2} reqs={r.1.reqs} mem={r.1.mem} fds={r.1.fds} handles={r.1.handles} watches={r.1.watches}"
+
+def step (_ : Unit) (ws : List String) : Unit × List String :=
+  match ws with
+  | [] => ((), [])
+  | "points" :: rest =>
+    match parseOp rest with
+    | some (op, []) => ((), [" ".intercalate ("points" :: (op.filter (·.fault.isSome)).map (·.label))])
+    | _ => ((), ["bad-op"])
+  | "run" :: rest =>
+    match parseOp rest with
+    | some (op, ["fault", "none"]) => ((), [showRun (runFrom op D.zero none)])
+    | some (op, ["fault", k, e]) =>
+      match k.toNat?, e.toNat? with
+      | some k, some e => ((), [showRun (runFrom op D.zero (some (k, e)))])
+      | _, _ => ((), ["bad-op"])
+    | _ => ((), ["bad-op"])
+  | ["retry", n] =>
+    match n.toNat? with
+    | some n =>
+      match retryEintr (interrupt n (fun _ => .ok 0)) (n + 1) with
+      | some (k, o) => ((), [s!"attempts={k + 1} eintr-surfaced={o.isEintr}"])
+      | none => ((), ["no-termination"])
+    | none => ((), ["bad-op"])
+  | _ => ((), ["bad-op"])
 
 /-- (mode name, action).  `uvdriver <mode>` runs the action (normally `runLines init step`). -/
-def modes : List (String × IO Unit) := []
+def modes : List (String × IO Unit) := [("c16ops", runLines () step)]
 
 end Drivers.C16
